@@ -54,7 +54,8 @@ type Tmpl struct {
 	NS       string // namespace
 	Name     string // short name (without leading dot)
 	Params   []Param
-	Header   bool // header params instead of soydoc
+	Defaults map[string]string // header params written with a default value: {@param r: ? = 3} (still required)
+	Header   bool              // header params instead of soydoc
 	BothDecl int  // (C07) both soydoc and header params: 0 no; 1 every param in both; 2 first param in the soydoc, the others in the header; 3 last param in the header, the others in the soydoc
 	Body     []*Cmd
 	Autoesc  string // template autoescape attribute ("" = unset)
@@ -223,10 +224,14 @@ func (t *Tmpl) src() string {
 		if !inHeader(i) {
 			continue
 		}
+		def := ""
+		if d, ok := t.Defaults[p.Name]; ok {
+			def = " = " + d
+		}
 		if p.Optional {
-			b.WriteString("{@param? " + p.Name + ": ?}\n")
+			b.WriteString("{@param? " + p.Name + ": ?" + def + "}\n")
 		} else {
-			b.WriteString("{@param " + p.Name + ": ?}\n")
+			b.WriteString("{@param " + p.Name + ": ?" + def + "}\n")
 		}
 	}
 	b.WriteString(srcCmds(t.Body))
